@@ -179,6 +179,8 @@ def case_cmds(name, text):
             # a destination that already holds something: 1x1 S, two frequencies
             "new 1 1 1 1 2", "freq 1 0 0x1p+20", "freq 1 1 0x1p+21", "mat 1 0 1 0.5 0.25", "mat 1 1 1 0.125 -0.5",
             "load 1 %s %s" % (name, hx), "dump 1",
+            # save with the format and precisions the loader left behind (e.g. '#:dprecision 0')
+            "save 1 %s" % ("k.npd" if name.endswith("npd") else "k.ts"),
             # re-save what was loaded (default format of the object's type, hexadecimal precision) and re-load
             "format 0 -", "fprec 0 1000", "dprec 0 1000", "save 0 %s" % ("r.npd" if name.endswith("npd") else "r.ts"),
             "new 2 -1 0 0 0", "load 2 %s @" % ("r.npd" if name.endswith("npd") else "r.ts"), "dump 2",
@@ -275,8 +277,8 @@ def evaluate(kind, label, name, text, lines):
         return ({"kind": "dims_do_not_fit_type", "loader": fam, "loaded_type": a.type},
                 "successful load left type %s with %dx%d" % (a.type, a.rows, a.cols))
     if a.cols >= 1 and a.rows >= 1 and len(a.freqs) >= 1 and saves:
-        sv = saves[0].split(" # ")[0].split()
-        svmsg = saves[0].partition(" # ")[2]
+        sv = saves[-1].split(" # ")[0].split()
+        svmsg = saves[-1].partition(" # ")[2]
         if int(sv[1]) != 0:
             return ({"kind": "loaded_object_not_savable", "loader": fam,
                      "z0_not_positive_real": bool("real and positive" in svmsg)},
